@@ -54,7 +54,7 @@ def last_ps(doc, idx=-1):
 def run(res, tier):
     res.assumptions += [
         "horizon 16 steps, thorough tier 32 (8 per synchrotron period: step counts exact in single precision); all split points",
-        "bit-identity demanded for RenormalizeCharge<0; otherwise the continued run renormalises on a different schedule: difference bounded by (|1-Q|+1e-6)*max f with Q the recorded charge (twice that with an impedance: amplitude and wake kick both scale with the charge)",
+        "bit-identity demanded for RenormalizeCharge<0; RenormalizeCharge=0: equal within rounding (4e-7 of the maximum for the loaded state, 2e-5 for the end state: main() passes the loaded grid through normalize() once, which for a grid read from a file divides by 1 +- an ulp); RenormalizeCharge>0: the continued run renormalises on a different schedule: loaded state = stored state / recorded charge, end state within (|1/Q-1|+1e-6)*max f with Q the recorded charge (twice that with an impedance: amplitude and wake kick both scale with the charge)",
         "same FFTW wisdom for all runs (warm-up); start state = asymmetric off-centre blob loaded from a start file",
         "RF modulation / noise are not part of the lattice (the modulation phase is a function of the time since program start, which a results file does not carry)",
         "a start file of another grid size is not a C11 refusal case (not listed in the statement); it is covered as a memory-safety case by C17"]
@@ -186,24 +186,37 @@ def run(res, tier):
             continue
         pop = d1["datasets"]["/BunchPopulation/data"]["data"]
         q = pop[step_r] if step_r < len(pop) else pop[-1]
-        kb = "renorm<0" if exact else "renorm>=0"
+        kb = "renorm<0" if exact else "renorm=0" if rn == 0 else "renorm>0"
+        ik = "impedance" if imp != "none" else "no-impedance"
         # (a) the loaded state is the stored state
         if exact:
             if first2_h != chosen_h:
                 res.violate("C11/loaded-state-differs/%s" % kb, case, "first /PhaseSpace record of the continued run is not bit-identical to the chosen record (step %d) of the first leg" % step_r, replay=rp)
+        elif rn == 0:
+            # RenormalizeCharge 0: main() calls normalize() once on the loaded grid, which divides by the integral the grid object holds - for a grid read from a
+            # file that of the unit placeholder it was built with (1 to rounding): the stored values come back to within an ulp or two
+            dev = max(abs(a - b) for a, b in zip(first2, chosen)) / max(abs(x) for x in chosen)
+            res.coverage["worst_loaded_state_deviation_renorm0"] = max(res.coverage.get("worst_loaded_state_deviation_renorm0", 0), dev)
+            if dev > 4e-7:
+                res.violate("C11/loaded-state-differs/%s" % kb, case, "first record of the continued run deviates from the chosen record by %.3g of its maximum (rounding allows 4e-7)" % dev, replay=rp)
         else:
             scale = sum(first2) / sum(chosen) if sum(chosen) else 1
             dev = max(abs(a - b * scale) for a, b in zip(first2, chosen)) / mx
-            # the continued run renormalises what it loads (RenormalizeCharge >= 0 promises an initial renormalisation): the loaded state is the stored one
-            # divided by its recorded charge q, nothing else
+            # RenormalizeCharge > 0 asks for a renormalisation at step 0: the loaded state is the stored one divided by its recorded charge q, nothing else
             if dev > 1e-5 or abs(scale * q - 1) > 2e-5:
-                res.violate("C11/loaded-state-differs/%s" % kb, case, "first record of the continued run deviates from the chosen record beyond a renormalisation (relative %.3g, scale %.8g)" % (dev, scale), replay=rp)
+                res.violate("C11/loaded-state-differs/%s" % kb, case, "first record of the continued run deviates from the chosen record beyond a renormalisation (relative %.3g, scale %.8g, recorded charge %.8g)" % (dev, scale, q), replay=rp)
         # (b) the end state equals that of the uninterrupted run
         if exact:
             if final2_h != finalf_h:
                 dev = max(abs(a - b) for a, b in zip(final2, finalf)) / mx
-                res.violate("C11/end-state-differs/%s/%s" % (kb, "impedance" if imp != "none" else "no-impedance"), case,
+                res.violate("C11/end-state-differs/%s/%s" % (kb, ik), case,
                             "final phase space of the continued run is not bit-identical to the uninterrupted run (max relative difference %.3g)" % dev, replay=rp)
+        elif rn == 0:
+            dev = max(abs(a - b) for a, b in zip(final2, finalf)) / mx
+            res.coverage["worst_end_state_deviation_renorm0"] = max(res.coverage.get("worst_end_state_deviation_renorm0", 0), dev)
+            if dev > 2e-5:
+                res.violate("C11/end-state-differs/%s/%s" % (kb, ik), case,
+                            "final phase space of the continued run differs from the uninterrupted run by %.3g of its maximum (rounding over the horizon allows 2e-5)" % dev, replay=rp)
         else:
             dev = max(abs(a - b) for a, b in zip(final2, finalf))
             popf = fulls[g][1]["datasets"]["/BunchPopulation/data"]["data"]
@@ -213,16 +226,9 @@ def run(res, tier):
             # (a rescaling by 1/Q moves a value by |1/Q-1| <= qq/(1-qq), not by qq)
             qe = qq / (1 - qq) if qq < 0.9 else 10.0
             bound = (2 if imp != "none" else 1) * (TOTAL / 16.0) * (qe + 1e-6) * mx
-            if rn == 0 and imp == "none":
-                # one renormalisation only, linear dynamics: the continued run is the uninterrupted one divided by the charge recorded at the split - to rounding
-                devl = max(abs(a * q - b) for a, b in zip(final2, finalf))
-                res.coverage["worst_linear_rescaling_residual"] = max(res.coverage.get("worst_linear_rescaling_residual", 0), devl / mx)
-                if devl > 3e-5 * mx:
-                    res.violate("C11/end-state-differs/renorm=0/not-the-rescaled-uninterrupted-run", case,
-                                "without an impedance the continued run must end in the uninterrupted run's state divided by the charge at the split (%.6g): residual %.3g of the maximum" % (q, devl / mx), replay=rp)
             res.coverage["worst_drift_bounded_ratio"] = max(res.coverage.get("worst_drift_bounded_ratio", 0), dev / bound)
-            if dev > bound * 1.001 and not (rn == 0 and imp == "none"):      # (that case has the sharper oracle above)
-                res.violate("C11/end-state-differs/%s/%s" % (kb, "impedance" if imp != "none" else "no-impedance"), case,
+            if dev > bound * 1.001:
+                res.violate("C11/end-state-differs/%s/%s" % (kb, ik), case,
                             "final phase space differs from the uninterrupted run by %.3g > bound %.3g (charge drift %.3g)" % (dev, bound, qq), replay=rp)
 
     # (b2) the older file layout [records][n][n] (no bunch dimension): "starting from any chosen record loads exactly the stored values"
